@@ -483,6 +483,35 @@ func runStress(op M) any {
 				}
 			}
 		}
+	case "firstuse":
+		// a process of its own whose first use of the writer package is the removal of a built-in
+		// driver (cmd/firstuse; the harness binary registers drivers when it starts)
+		bin := os.Getenv("VERIF_FIRSTUSE_BIN")
+		if bin == "" {
+			return M{"calls": 0.0, "violations": v.l, "count": 0.0, "skipped": "no first-use binary"}
+		}
+		for _, which := range []string{"cdx", "spdx"} {
+			cmd := exec.Command(bin, which)
+			var out, errb bytes.Buffer
+			cmd.Stdout, cmd.Stderr = &out, &errb
+			if err := cmd.Run(); err != nil {
+				tail := errb.String()
+				if len(tail) > 600 {
+					tail = tail[:600]
+				}
+				v.add("a process that removes a serializer before anything else ends abnormally: %v %s", err, tail)
+				continue
+			}
+			var r struct{ Violations []string }
+			if json.Unmarshal(bytes.TrimSpace(out.Bytes()), &r) != nil {
+				v.add("the first-use process printed no result")
+				continue
+			}
+			for _, m := range r.Violations {
+				v.add("%s", m)
+			}
+			count(400)
+		}
 	case "shared":
 		// C11, second sentence: read-only and value-returning operations run concurrently on one shared
 		// document, its node list, nodes and edges. Every result equals the result of the same call
@@ -733,6 +762,13 @@ func runStress(op M) any {
 						f2, err := sn.SniffReader(bytes.NewReader(it.in))
 						if s := string(f2); (err != nil && it.fmt != "err") || (err == nil && s != it.fmt) {
 							v.add("detection on a goroutine's own sniffer gives %q (%v), alone it gives %q", s, err, it.fmt)
+						}
+						// documents that declare versions nobody has seen before: each is refused
+						for _, odd := range []string{fmt.Sprintf(`{"bomFormat":"CycloneDX","specVersion":"9.%d","version":1}`, w*100000+i),
+							fmt.Sprintf(`{"spdxVersion":"SPDX-7.%d","SPDXID":"SPDXRef-DOCUMENT"}`, w*100000+i)} {
+							if f3, err := sn.SniffReader(strings.NewReader(odd)); err == nil || f3 != "" {
+								v.add("a document that declares an unsupported version is detected as %q (error %v) next to other detections", f3, err)
+							}
 						}
 					})
 					k := (i + w) % len(wdocs)
@@ -996,7 +1032,7 @@ func concGen(g *G, tier string) []M {
 		n, iters = 25, 3000
 	}
 	var ops []M
-	scenarios := []string{"registry", "io", "new", "parse"}
+	scenarios := []string{"registry", "io", "new", "parse", "firstuse"}
 	if os.Getenv("VERIF_PROP") == "C04" {
 		scenarios = []string{"parse"} // the clause "never terminate the process" of C04
 	}
